@@ -2,10 +2,11 @@
 (* The specification as the oracle for texts produced outside TLC (boundary        *)
 (* families built by the driver from binary floating-point structure: halfway      *)
 (* cases, range limits, long mantissas): the texts are read from                   *)
-(* numlit_texts.ndjson (one {"t": [chars]} per line), classified by the            *)
+(* numlit_texts.ndjson (one JSON array of one-character strings per line), classified by the            *)
 (* declarative side and printed like every other case.                             *)
 EXTENDS NumLit_gen
 
-FileLines == ndJsonDeserialize("numlit_texts.ndjson")
-FileTexts == {FileLines[i].t : i \in 1..Len(FileLines)}
+\* (one definition, no post-processing: TLC caches it; a derived definition would re-read the file
+\* for every element)
+FileSeq == ndJsonDeserialize("numlit_texts.ndjson")
 =============================================================================
